@@ -20,12 +20,19 @@ per-index snapshots at first use, the read-set of the constraint checks, `checkP
 Concurrency is inherited from the store's MVCC (C05): `OngoingTx.GetWithFilters` records the primary
 key existence read (found: `expectedGet{expectedTx}`, not found: `expectedGet{}`) and
 `GetWithPrefixAndFilters` records the unique-prefix read (`expectedGetsWithPrefix`) in the read-set;
+Constraints ADDED while sessions are active (added for the seeded change c12-b; `Sql/CatalogDml.lean` joins the DML
+model with the catalog-cache protocol `Sql/CatalogCache.lean` whose coherence is proved in
+`Sql/Proofs/CatalogCacheMain.lean`): `new_tx_checks_against_committed_schema`,
+`insert_after_committed_unique_index_rejects_duplicate`, `insert_after_committed_not_null_enforced_partial`,
+witnesses `stale_schema_admits_duplicate` / `same_schedule_code_rejects_duplicate`.
+
 both are issued by `execAt`/`doUpsert` through the SQL transaction's `OngoingTx` (`tx.get`,
 `tx.getWithPrefix`).  In model terms this is `uniqueness_reads_in_readset`: the uniqueness decision
 depends on nothing but the entries under the read prefix.
 -/
 import ImmuModel.Sql.Proofs.DmlMain
 import ImmuModel.Sql.Proofs.SessionsMain
+import ImmuModel.Sql.Proofs.CatalogDmlMain
 
 namespace ImmuModel.Props.C12
 open ImmuModel ImmuModel.Sql
@@ -276,5 +283,120 @@ example : ∃ (db1 db2 : DB) (vals : Bytes),
   · intro r hr
     simp only [List.mem_cons, List.not_mem_nil, or_false] at hr
     rcases hr with rfl | rfl <;> exact ⟨_, _, rfl, rfl⟩
+
+-- ---------------------------------------------------------------- constraints added while sessions are active
+
+section CatalogGenerations
+open ImmuModel.Sql.CatCache ImmuModel.Sql.CatDml
+
+/-- **A transaction that begins after a DDL commit checks its statements against the committed schema.**  For
+EVERY schedule of any number of sessions (BEGIN read-only / read-write, DDL, DML, COMMIT incl. conflicting and
+EMPTY ones, ROLLBACK, engine re-open; cold or warm engine-wide catalog cache) and every schema history `h`: the
+transaction `NewTx` opens now is registered with the committed catalog generation, so every statement executed in
+it runs `exec` under `h committed` — the schema that contains every constraint declared by a committed
+CREATE TABLE / CREATE UNIQUE INDEX / ALTER TABLE. -/
+theorem new_tx_checks_against_committed_schema (h : Hist) (ops : List CatCache.Op) (sid : Nat) (ro : Bool)
+    (hfree : findTx sid (CatCache.run codeCfg {} ops).1.txs = none) :
+    ∃ t, findTx sid (CatCache.step codeCfg (CatCache.run codeCfg {} ops).1 (.newTx sid ro)).1.txs = some t ∧
+      txSchema h t = h (CatCache.run codeCfg {} ops).1.committed ∧
+      (∀ db st, execIn h (CatCache.step codeCfg (CatCache.run codeCfg {} ops).1 (.newTx sid ro)).1 sid db st =
+        some (exec (h (CatCache.run codeCfg {} ops).1.committed) db st)) ∧
+      (∀ db row reuse, upsertIn h (CatCache.step codeCfg (CatCache.run codeCfg {} ops).1 (.newTx sid ro)).1 sid db row reuse =
+        some (doUpsert (h (CatCache.run codeCfg {} ops).1.committed) db row reuse)) := by
+  have hi : CatCache.Inv (CatCache.run codeCfg {} ops).1 := CatCache.MainAux.run_inv ops {} CatCache.MainAux.inv_init
+  obtain ⟨t, _, _, hf, hc⟩ := CatDmlAux.newTx_registers codeCfg (CatCache.run codeCfg {} ops).1 sid ro hfree
+  have hfresh : (openTx (CatCache.run codeCfg {} ops).1 ro).1.cat = (CatCache.run codeCfg {} ops).1.committed := by
+    have := CatCache.MainAux.fresh_of_inv _ hi
+    generalize (CatCache.run codeCfg {} ops).1 = e at *
+    cases hcache : e.cache with
+    | none => simp [openTx, hcache]
+    | some c => simp [openTx, hcache, hi.1 c hcache]
+  have hcat : t.cat = (CatCache.run codeCfg {} ops).1.committed := hc.trans hfresh
+  refine ⟨t, hf, by simp [txSchema, hcat], ?_, ?_⟩
+  · intro db st; simp [execIn, hf, txSchema, hcat]
+  · intro db row reuse; simp [upsertIn, hf, txSchema, hcat]
+
+/-- **After a committed CREATE UNIQUE INDEX no later transaction can insert a duplicate of a live tuple.**  If the
+committed schema `h committed` declares the UNIQUE index `(true, cs)` (position `j`), then in the transaction opened
+now — whatever open / empty / reader transactions of other sessions committed before, on a cold or warm cache — the
+write path `doUpsert` of INSERT refuses every row whose index values `vals` are held by a live row `r` with another
+primary key (no deleted entry under the prefix: the R2 case is excluded by `hdead`).  This is what the seeded change
+c12-b breaks: there the transaction is registered with an OLDER generation (see `stale_schema_admits_duplicate`). -/
+theorem insert_after_committed_unique_index_rejects_duplicate (h : Hist) (ops : List CatCache.Op) (sid : Nat)
+    (hfree : findTx sid (CatCache.run codeCfg {} ops).1.txs = none)
+    (db db' : DB) (row r : Row) (j : Nat) (cs : List Nat) (vals k k' : Bytes)
+    (hidx : (h (CatCache.run codeCfg {} ops).1.committed).idx[j]? = some (true, cs))
+    (hok : ∀ r, r ∈ db.rows → ∃ v k, idxEnc (h (CatCache.run codeCfg {} ops).1.committed) cs r = .ok v ∧
+      pkEnc (h (CatCache.run codeCfg {} ops).1.committed) r = .ok k)
+    (hr : r ∈ db.rows) (hv : idxEnc (h (CatCache.run codeCfg {} ops).1.committed) cs r = .ok vals)
+    (hk' : pkEnc (h (CatCache.run codeCfg {} ops).1.committed) r = .ok k')
+    (hrow : idxEnc (h (CatCache.run codeCfg {} ops).1.committed) cs row = .ok vals)
+    (hk : pkEnc (h (CatCache.run codeCfg {} ops).1.committed) row = .ok k) (hne : k' ≠ k)
+    (hdead : db.tombs.filter (fun t => t.idx = j ∧ t.vals = vals) = []) :
+    upsertIn h (CatCache.step codeCfg (CatCache.run codeCfg {} ops).1 (.newTx sid false)).1 sid db row false ≠
+      some (.ok db') := by
+  obtain ⟨_, _, _, _, hu⟩ := new_tx_checks_against_committed_schema h ops sid false hfree
+  rw [hu db row false]
+  intro heq
+  exact CatDmlAux.doUpsert_rejects_live_duplicate _ db db' row r j cs vals k k' hidx hok hr hv hk' hrow hk hne hdead
+    (Option.some.inj heq)
+
+/-- **After a committed NOT NULL declaration every later INSERT enforces it** (composition with
+`insert_enforces_not_null_partial`; same side condition on auto-increment columns). -/
+theorem insert_after_committed_not_null_enforced_partial (h : Hist) (ops : List CatCache.Op) (sid : Nat)
+    (hfree : findTx sid (CatCache.run codeCfg {} ops).1.txs = none)
+    (db db' : DB) (k : InsKind) (cols : List Nat) (rows : List (List Val))
+    (hauto : k ≠ .upsert ∨ ∀ (c : Nat) (cs : ColSpec),
+      (h (CatCache.run codeCfg {} ops).1.committed).cols[c]? = some cs → cs.autoInc = true →
+      cs.notNull = true → c ∈ (h (CatCache.run codeCfg {} ops).1.committed).pk)
+    (hnn : notNullOK (h (CatCache.run codeCfg {} ops).1.committed) db)
+    (he : execIn h (CatCache.step codeCfg (CatCache.run codeCfg {} ops).1 (.newTx sid false)).1 sid db
+      (.ins k cols rows) = some (.ok db')) :
+    notNullOK (h (CatCache.run codeCfg {} ops).1.committed) db' := by
+  obtain ⟨_, _, _, hx, _⟩ := new_tx_checks_against_committed_schema h ops sid false hfree
+  rw [hx db (.ins k cols rows)] at he
+  exact insert_enforces_not_null_partial _ db db' k cols rows hauto hnn (Option.some.inj he)
+
+/-- the schema history of the witness: generation 0 = the table without secondary index, from generation 1 on with
+`UNIQUE(u)` (the committed `CREATE UNIQUE INDEX ON t(u)`) -/
+def wHist : Hist := fun g => if g = 0 then { wSchemaU with idx := [] } else wSchemaU
+
+/-- the schedule of c12-b / c13-a: cold cache, session 1 BEGINs, session 0 commits the DDL, session 1 commits EMPTY -/
+def wOpsStale : List CatCache.Op := [.newTx 1 false, .newTx 0 false, .ddl 0, .commit 0, .commit 1]
+
+/-- **Necessity witness (what the seeded change c12-b does).**  With the version bump of `invalidateCatalogCache`
+skipped on a cold cache, the transaction opened after that schedule is registered with generation 0 although
+generation 1 (with `UNIQUE(u)`) is committed, and `doUpsert` ACCEPTS the row (2,5) next to the live row (1,5). -/
+theorem stale_schema_admits_duplicate :
+    let e := (CatCache.step { codeCfg with bumpAlways := false }
+      (CatCache.run { codeCfg with bumpAlways := false } {} wOpsStale).1 (.newTx 2 false)).1
+    (CatCache.run { codeCfg with bumpAlways := false } {} wOpsStale).1.committed = 1 ∧
+    (findTx 2 e.txs).map (·.cat) = some 0 ∧
+    (wHist 1).idx = [(true, [1])] ∧
+    (upsertIn wHist e 2 { rows := [[.int 1, .int 5]] } [.int 2, .int 5] false).map
+      (fun x => x.toOption.map (·.rows)) = some (some [[.int 1, .int 5], [.int 2, .int 5]]) := by
+  refine ⟨by decide, by decide, rfl, ?_⟩
+  rfl
+
+/-- the same schedule on the code as it is: the new transaction has generation 1 and the duplicate is refused -/
+theorem same_schedule_code_rejects_duplicate :
+    let e := (CatCache.step codeCfg (CatCache.run codeCfg {} wOpsStale).1 (.newTx 2 false)).1
+    (findTx 2 e.txs).map (·.cat) = some 1 ∧
+    (upsertIn wHist e 2 { rows := [[.int 1, .int 5]] } [.int 2, .int 5] false).map
+      (fun x => match x with | .error .dupKey => true | _ => false) = some true := by
+  refine ⟨by decide, ?_⟩
+  rfl
+
+/-- non-vacuity of `insert_after_committed_unique_index_rejects_duplicate`: its hypotheses hold after `wOpsStale`
+for session 2, the live row (1,5) and the new row (2,5) -/
+example : findTx 2 (CatCache.run codeCfg {} wOpsStale).1.txs = none ∧
+    (wHist (CatCache.run codeCfg {} wOpsStale).1.committed).idx[0]? = some (true, [1]) ∧
+    idxEnc (wHist 1) [1] [.int 1, .int 5] = .ok [128, 128, 0, 0, 0, 0, 0, 0, 5] ∧
+    idxEnc (wHist 1) [1] [.int 2, .int 5] = .ok [128, 128, 0, 0, 0, 0, 0, 0, 5] ∧
+    pkEnc (wHist 1) [.int 1, .int 5] = .ok [128, 128, 0, 0, 0, 0, 0, 0, 1] ∧
+    pkEnc (wHist 1) [.int 2, .int 5] = .ok [128, 128, 0, 0, 0, 0, 0, 0, 2] :=
+  ⟨by decide, rfl, rfl, rfl, rfl, rfl⟩
+
+end CatalogGenerations
 
 end ImmuModel.Props.C12
